@@ -164,7 +164,7 @@ Proof.
   match goal with |- context [rp_try_cands ?a ?b ?c] => destruct (rp_try_cands a b c) as [s3 found] eqn:E3;
     pose proof (rpp_try_cands_frame c a b) as F3; rewrite E3 in F3; simpl in F3 end.
   pose proof (rpp_frame_trans _ _ _ G2 F3) as G3.
-  destruct found; [exact G3 |]. eapply rpp_frame_trans; [exact G3 | apply IH].
+  destruct found; [exact G3 |]. destruct (e - RpEnd_window =? 0); [exact G3 |]. eapply rpp_frame_trans; [exact G3 | apply IH].
 Qed.
 Lemma rpp_rd_chunk_end_frame : forall s, rpp_frame s (fst (rp_rd_chunk_end s)).
 Proof. intros s. unfold rp_rd_chunk_end. apply rpp_end_loop_frame. Qed.
